@@ -7,4 +7,7 @@ import GontainerModel.Props.C15
 #print axioms GM.C15.params_lazy
 #print axioms GM.C15.param_cached
 #print axioms GM.C15.param_first_use
+#print axioms GM.C15.param_evaluated_at_most_once
+#print axioms GM.C15.getParam_frame
+#print axioms GM.C15.cached_param_answers
 #print axioms GM.C15.self_todo_wiring
